@@ -248,10 +248,22 @@ def xml_vocabulary_corpus(rng):
                ('Part', '<UniqueId name="UniqueId"><hash>x</hash></UniqueId>'),
                ('ParticleEmitter', '<NumberSequence name="Size"><hash>0 1 0 1 1 0</hash></NumberSequence>'),
                ('Part', '<token name="Material"><binary>256</binary></token>')]
+    # properties the database KNOWS but never serializes (as a third-party tool, or rbx_xml itself with WriteUnknown, writes
+    # them), an unknown property, an unknown class: every decode behaviour has its own path for these
+    nonser = [('Part', '<Vector3 name="Position"><X>1</X><Y>2</Y><Z>3</Z></Vector3>'), ('Part', '<Vector3 name="Orientation"><X>1</X><Y>2</Y><Z>3</Z></Vector3>'),
+              ('Part', '<Vector3 name="Rotation"><X>1</X><Y>2</Y><Z>3</Z></Vector3>'), ('Part', '<Ref name="Parent">R0</Ref>'), ('Part', '<string name="ClassName">Part</string>'),
+              ('Model', '<float name="Scale">2</float>'), ('Folder', '<int name="ZzNoSuchProperty">1</int>'), ('ZzNoSuchClass', '<int name="Whatever">1</int>'),
+              ('Part', '<float name="Mass">1</float>'), ('Part', '<bool name="Locked">true</bool><Vector3 name="Position"><X>1</X><Y>2</Y><Z>3</Z></Vector3><bool name="Anchored">true</bool>')]
+    for i, (cls, body) in enumerate(nonser):
+        d = doc(cls, body).encode()
+        for dec in ('xml', 'xml-strict', 'xml-default', 'xml-noreflect'):
+            yield ('xml-nonserializing-%d-%s' % (i, dec), dec, d)
     seen = set()
     for i, (cls, body) in enumerate(bodies):
         d = doc(cls, body).encode()
         yield ('xml-vocab-%d' % i, 'xml', d)
+        for dec in ('xml-strict', 'xml-default', 'xml-noreflect'):
+            yield ('xml-vocab-%d-%s' % (i, dec), dec, d)
         start = d.find(b'<Properties>')
         for cut in range(start, len(d)):
             p = d[:cut]
